@@ -138,7 +138,8 @@ Definition c07_holds (expected : json) (nfaults : nat) (o : observed) : bool :=
 (* C11: N requests on shared plans.  Per request: its own variables, what a solitary execution on
    a freshly planned plan gave, what it gave when run together with the others on the shared plans,
    and what it gave when run once more afterwards on the same plans. *)
-Record req_obs := { ro_vars : list (string * json); ro_solo : observed; ro_conc : observed; ro_again : observed }.
+Record req_obs := { ro_vars : list (string * json); ro_solo : observed; ro_conc : observed; ro_again : observed;
+                    ro_full : observed (* planned and executed while the others are *) }.
 
 Fixpoint strs_eqb (a b : list string) : bool :=
   match a, b with
@@ -172,7 +173,7 @@ Definition c11_holds (stray_calls : nat) (rs : list req_obs) : bool :=
   forallb (fun r =>
     (* the calls (service, query, variable values) and the answer are those of the solitary run:
        in particular no call carries a value of another request *)
-    same_outcome (ro_conc r) (ro_solo r) && same_outcome (ro_again r) (ro_solo r) ||
+    same_outcome (ro_conc r) (ro_solo r) && same_outcome (ro_again r) (ro_solo r) && same_outcome (ro_full r) (ro_solo r) ||
     (* a request whose solitary run already ends in errors is no reference: which of its calls are
        still made then depends on the order of the plan's steps, which differs from plan to plan *)
     negb (Nat.eqb (ob_class (ro_solo r)) 0)) rs.
